@@ -16,6 +16,9 @@ CLAIMED = {
  'C45': ('K', 'Kani/CBMC bounded model checking of the real CircuitBreaker over symbolic call histories and a symbolic monotone clock (Instant::now stubbed), reference monitor as assertion; native replay under an interposed virtual clock',
          'Solver-decided for every history of <= 6 (quick) / <= 8 (thorough) calls chosen from {allow_request, record_success, record_failure} at arbitrary non-decreasing instants, thresholds 1-2 / 1-4, reset timeouts 1-60 s: opens after exactly threshold consecutive failures, rejects until the timeout has passed, admits exactly one half-open probe, closes on success, reopens on failure. Each method holds the mutex for its whole body, so these sequential histories are exactly the interleavings of concurrent senders.',
          'Only the breaker sentences of C45 are claimed. ResilientSink::send/send_batch and dead-letter-queue completeness (async + file I/O) are outside this technique. Trusted: Kani/CBMC, the clock stub, the monitor in kani/k-runtime/src/c45.rs.', 'DESIGN.md §4 C45'),
+ 'C11': ('M', 'symbolic execution of the MIR of the Expr::Binary / Expr::Unary arms and of the variant dispatch of eval_expr_with_functions into Z3, in both build profiles (overflow-checks on and off); every MIR assert terminator, diverging call and modelled std panic is a solver obligation; termination obligation on the catch-all arm; native replay',
+         'Solver-decided panic-freedom for every binary operator (24) and unary operator (3) on operands of EVERY value variant with fully symbolic i64/f64/bool payloads, in the dev and the release profile, plus: no expression variant makes the evaluator re-enter itself with the same expression (the stack-overflow defect).',
+         'Trusted: MIR dump + executor; std string/collection comparisons and powi/powf assumed panic-free (opaque models). Recursive operand evaluations return any Some(Value). Outside: arms of Array/Map/Index/Slice/Range/Coalesce/Member/Call/If/Ident (std iterator and formatting code), built-in functions, user functions, range sizes.', 'DESIGN.md §4 C11'),
 }
 
 NOT_APPLICABLE = {
